@@ -174,7 +174,7 @@ type pubRec struct {
 }
 
 func runC08(r *kit.Run) {
-	n := int64(r.Scale(420, 36000))
+	n := int64(r.Scale(420, 100000))
 	if r.Build != "plain" {
 		n /= 6
 	}
